@@ -33,10 +33,13 @@ def gen_case(rng):
             'kp_fields': {'kf%d' % f: [label_value(rng, i, 5 + f) for i in range(n)] for f in range(kk)},
             'inline_b': [[('ib', i, j) for j in range(inline_b)] for i in range(n)],
             'inline_k': [[('ik', i, j) for j in range(inline_k)] for i in range(n)],
-            'each': rng.random() < 0.5, 'additional': rng.random() < 0.3}
-    x1, y1, z1 = rng.randint(0, W - 2), rng.randint(0, H - 2), rng.randint(0, D - 2)
-    case['pipeline'] = [S.L('Crop', x_min=x1, y_min=y1, z_min=z1, x_max=rng.randint(x1 + 1, W),
-                            y_max=rng.randint(y1 + 1, H), z_max=rng.randint(z1 + 1, D))]
+            'each': rng.random() < 0.5, 'additional': rng.random() < 0.3,
+            'bbox_format': rng.choice(['pascal_voc_3d', 'pascal_voc_3d', 'coco_3d', 'yolo_3d', 'dicaugment_3d']),
+            'kp_format': rng.choice(['xyz', 'xyz', 'zyx', 'xyza', 'xyzs', 'xyzas', 'xyzsa'])}
+    # a window that keeps most annotations and drops some (a small window leaves nothing to compare)
+    x1, y1, z1 = rng.randint(0, W // 3), rng.randint(0, H // 3), rng.randint(0, D // 3)
+    case['pipeline'] = [S.L('Crop', x_min=x1, y_min=y1, z_min=z1, x_max=rng.randint(W - W // 3, W),
+                            y_max=rng.randint(H - H // 3, H), z_max=rng.randint(D - D // 3, D))]
     if rng.random() < 0.6:
         case['pipeline'].append(rng.choice([S.L('HorizontalFlip'), S.L('Transpose'), S.L('NoOp'),
                                             S.L('CoarseDropout', max_holes=2, max_height=1, max_width=1, max_depth=1)]))
@@ -48,13 +51,31 @@ def check(case, viol):
     n = case['n']
     bfields, kfields = list(case['box_fields']), list(case['kp_fields'])
     # the geometry's own identity is smuggled in as the LAST inline field so that survivors can be matched
-    boxes = [tuple(b) + tuple(case['inline_b'][i]) + (('id', i),) for i, b in enumerate(case['boxes'])]
-    kps = [tuple(k) + tuple(case['inline_k'][i]) + (('id', i),) for i, k in enumerate(case['kps'])]
+    bfmt, kfmt = case.get('bbox_format', 'pascal_voc_3d'), case.get('kp_format', 'xyz')
+    H_, W_, D_ = shape
+
+    def box_in(b):
+        x1, y1, z1, x2, y2, z2 = b
+        if bfmt == 'coco_3d':
+            return (x1, y1, z1, x2 - x1, y2 - y1, z2 - z1)
+        if bfmt == 'yolo_3d':
+            return ((x1 + x2) / 2 / W_, (y1 + y2) / 2 / H_, (z1 + z2) / 2 / D_, (x2 - x1) / W_, (y2 - y1) / H_, (z2 - z1) / D_)
+        if bfmt == 'dicaugment_3d':
+            return (x1 / W_, y1 / H_, z1 / D_, x2 / W_, y2 / H_, z2 / D_)
+        return tuple(b)
+
+    def kp_in(k):
+        x, y, z = k
+        return {'xyz': (x, y, z), 'zyx': (z, y, x), 'xyza': (x, y, z, 0.3), 'xyzs': (x, y, z, 1.5),
+                'xyzas': (x, y, z, 0.3, 1.5), 'xyzsa': (x, y, z, 1.5, 0.3)}[kfmt]
+    klen = len(kp_in((0.0, 0.0, 0.0)))
+    boxes = [box_in(b) + tuple(case['inline_b'][i]) + (('id', i),) for i, b in enumerate(case['boxes'])]
+    kps = [kp_in(k) + tuple(case['inline_k'][i]) + (('id', i),) for i, k in enumerate(case['kps'])]
     add = {'bboxes2': 'bboxes', 'keypoints2': 'keypoints'} if case['additional'] else None
     pipe = A.Compose([R.make_node(s) for s in case['pipeline']],
-                     bbox_params=A.BboxParams('pascal_voc_3d', label_fields=bfields or None,
+                     bbox_params=A.BboxParams(bfmt, label_fields=bfields or None,
                                               check_each_transform=case['each']),
-                     keypoint_params=A.KeypointParams('xyz', label_fields=kfields or None,
+                     keypoint_params=A.KeypointParams(kfmt, label_fields=kfields or None,
                                                       check_each_transform=case['each']),
                      additional_targets=add)
     use_boxes = all(sp['cls'] != 'CoarseDropout' for sp in case['pipeline'])   # CoarseDropout: boxes unsupported (README)
@@ -64,7 +85,7 @@ def check(case, viol):
     else:
         bfields = []
         pipe = A.Compose([R.make_node(sp) for sp in case['pipeline']],
-                         keypoint_params=A.KeypointParams('xyz', label_fields=kfields or None,
+                         keypoint_params=A.KeypointParams(kfmt, label_fields=kfields or None,
                                                           check_each_transform=case['each']),
                          additional_targets={'keypoints2': 'keypoints'} if add else None)
     for f in bfields:
@@ -89,6 +110,9 @@ def check(case, viol):
 
     def verify(key, fields, fieldvals, inline, geom_len):
         out = res[key]
+        if any(not (isinstance(a[-1], tuple) and len(a[-1]) == 2 and a[-1][0] == 'id') for a in out):
+            bad.append((key, 'annotation without its last inline field: %s' % (out[:2],), 'every inline field returned'))
+            return
         ids = [a[-1][1] for a in out]
         if ids != sorted(ids) and not key.endswith('2'):
             bad.append((key, 'order %s' % ids, 'input order'))
@@ -104,11 +128,11 @@ def check(case, viol):
                 bad.append((f, vals, exp))
     if use_boxes:
         verify('bboxes', bfields, case['box_fields'], case['inline_b'], 6)
-    verify('keypoints', kfields, case['kp_fields'], case['inline_k'], 3)
+    verify('keypoints', kfields, case['kp_fields'], case['inline_k'], klen)
     if 'bboxes2' in data:
         verify('bboxes2', [], {}, case['inline_b'], 6)
     if 'keypoints2' in data:
-        verify('keypoints2', [], {}, case['inline_k'], 3)
+        verify('keypoints2', [], {}, case['inline_k'], klen)
     for key, obs, exp in bad[:3]:
         viol.append({'site': 'C05:%s' % ('labels' if key not in ('bboxes', 'keypoints', 'bboxes2', 'keypoints2') else key),
                      'case': case, 'observed': str(obs), 'expected': str(exp)})
